@@ -869,7 +869,7 @@ void matrixSslDeleteSession(ssl_t *ssl)
     {
         matrixSslDeleteHelloExtension(ssl->userExt);
     }
-# ifdef ENABLE_SECURE_REHANDSHAKES
+# ifdef USE_CLIENT_SIDE_SSL
     if (!(ssl->flags & SSL_FLAGS_SERVER))
     {
         if (ssl->tlsClientCipherSuites != NULL)
